@@ -747,7 +747,7 @@ func (u *connectStreamingUnmarshaler) Unmarshal(message any) *Error {
 		// with the OK code.
 		u.endStreamErr.code = CodeUnknown
 	}
-	return errSpecialEnvelope
+	return newSpecialEnvelopeError()
 }
 
 func (u *connectStreamingUnmarshaler) Trailer() http.Header {
